@@ -91,7 +91,7 @@ func extremeLevelQueries(sps []oracle.Subpath, pls []oracle.Polyline, lo, hi ora
 				sort.Float64s(xs)
 				out = append(out, oracle.Pt{X: lo.X - 0.7313, Y: y}, oracle.Pt{X: hi.X + 0.6171, Y: y})
 				for k := 0; k+1 < len(xs); k++ {
-					if xs[k+1]-xs[k] > 1e-3 {
+					if !(xs[k+1]-xs[k] <= 1e-3) {
 						out = append(out, oracle.Pt{X: xs[k] + 0.43*(xs[k+1]-xs[k]), Y: y})
 					}
 				}
@@ -132,7 +132,7 @@ func bandQueries(sps []oracle.Subpath, pls []oracle.Polyline, lo oracle.Pt) []or
 			sort.Float64s(xs)
 			out = append(out, oracle.Pt{X: lo.X - 0.7313, Y: y})
 			for k := 0; k+1 < len(xs); k++ {
-				if xs[k+1]-xs[k] > 1e-3 {
+				if !(xs[k+1]-xs[k] <= 1e-3) {
 					out = append(out, oracle.Pt{X: xs[k] + 0.43*(xs[k+1]-xs[k]), Y: y})
 				}
 			}
@@ -621,7 +621,9 @@ func families(tier string) []fw.Family {
 	}
 	cubicFam := fw.Family{Name: "one lattice cubic closed by its chord (control points in [-2..2]^2, 4 end points)", N: 625 * int64(len(cubicEnds)),
 		Check: func(i int64, r *fw.R) { checkShape(r, cubicData(i), false) },
-		Desc:  func(i int64) string { return oracle.Fmt(cubicData(i)) + " x lattice, band and extreme-level query points" }}
+		Desc: func(i int64) string {
+			return oracle.Fmt(cubicData(i)) + " x lattice, band and extreme-level query points"
+		}}
 	fs := []fw.Family{
 		ellFam,
 		curvedCCW,
